@@ -36,6 +36,33 @@ def ev(**kw):
     return d
 
 
+class YieldingLock:
+    """the build lock with a scheduling point after every release: a thread blocked on the lock runs BEFORE the
+    releasing thread continues.  Installed over main._def_build_lock (a module/class global, no source hook): it turns
+    'B acquires the lock right after A released it, before A's next statement' from a rare OS coincidence into the
+    schedule of every forced overlap - the window in which a context cleared after the release would hit B."""
+
+    def __init__(self, real):
+        self._real = real
+
+    def acquire(self, blocking=True, timeout=-1):
+        return self._real.acquire(blocking, timeout)
+
+    def release(self):
+        self._real.release()
+        time.sleep(0.003)
+
+    def locked(self):
+        return self._real.locked()
+
+    def __enter__(self):
+        self._real.acquire()
+        return True
+
+    def __exit__(self, *a):
+        self.release()
+
+
 class Runner:
     def __init__(self, builder):
         self.b = builder
@@ -71,7 +98,7 @@ class Runner:
                 self.emit(e='mid', t=t, b=bno, f=key, **state())
                 on_sync()
                 self.emit(e='mid', t=t, b=bno, f=key, **state())
-            if idx == n:
+            if idx == n or idx == -1:       # end of the function body (normal, or about to raise)
                 self.emit(e='leave', t=t, b=bno, f=key, **state())
 
         rec = self.b.build(prog, hook=hook, post=post)
@@ -255,6 +282,8 @@ def main():
     sc3.init(os.environ.get('VERIF_MODE', 'nrt'))
     from harness import sgbuild
     b = sgbuild.Builder()
+    main_ = b._libsc3.main
+    main_._def_build_lock = YieldingLock(main_._def_build_lock)
     out = []
     for sc in inp['scenarios']:
         r = Runner(b)
